@@ -263,9 +263,57 @@ def labels_roundtrip(goal: int, flip: bool, v: int) -> bool:
     labels = oc.convert([vz.Measurement({'m': value}), None])
     sign = -1.0 if (goal == 2 and flip) else 1.0
     ok = labels.shape == (2, 1) and float(labels[0, 0]) == sign * value and math.isnan(float(labels[1, 0]))
+    keep = labels.copy()
     back = oc.to_metrics(labels)
     ok = ok and back[0] is not None and back[0].value == value and back[1] is None
+    # converting back is a pure function of the label array: the caller's array is intact and a second conversion of the
+    # same array (as (n, 1) and as (n,)) returns the original values again
+    ok = ok and np.array_equal(labels, keep, equal_nan=True)
+    for arr in (labels, labels[:, 0], np.ascontiguousarray(labels[:, 0])):
+      again = oc.to_metrics(arr)
+      ok = ok and again[0] is not None and again[0].value == value and again[1] is None
+    ok = ok and np.array_equal(labels, keep, equal_nan=True)
     ok = ok and (oc.metric_information.goal == vz.ObjectiveMetricGoal.MAXIMIZE if (goal == 2 and flip) else
                  oc.metric_information.goal == mi.goal)
   reach('labels')
   return finish(ok, (goal, flip, v))
+
+
+F32_BOUNDS = [(0.1, 0.6), (0.7, 1.1), (-1.1, -0.3), (0.001, 0.3), (16777217.0, 16777219.0), (0.0, 1.0)]
+
+
+def float32_double(b: int, scale: bool, clip: bool, f: int) -> bool:
+  """
+  pre: 0 <= b <= 5 and 0 <= f <= 8
+  post: _
+  """
+  b, scale, clip, f = conc(b, 0, 5), cbool(scale), cbool(clip), conc(f, 0, 8)
+  with NoTracing():
+    lo, hi = F32_BOUNDS[b]          # bounds a float32 cannot represent: the cast bound lies outside [lo, hi] on one side
+    pc = vz.ParameterConfig.factory('p', bounds=(lo, hi), scale_type=vz.ScaleType.LINEAR)
+    conv = core.DefaultModelInputConverter(pc, scale=scale, float_dtype=np.float32, should_clip=clip)
+    ok = True
+    if f < 5:
+      # a point of the space, encoded and decoded: inside the space again, equal to float32 accuracy
+      value = [lo, hi, (lo + hi) / 2, lo + (hi - lo) * 0.125, lo + (hi - lo) * 0.9][f]
+      arr = conv.convert([vz.TrialSuggestion({'p': value})])
+      ok = arr.dtype == np.float32 and bool(np.all(np.isfinite(arr)))
+      if scale:
+        ok = ok and bool(np.all(arr >= -1e-6) and np.all(arr <= 1 + 1e-6))
+    else:
+      # whatever an optimiser produces, in feature units: far outside, just outside, huge
+      span = 1.0 if scale else (hi - lo)
+      base = 0.0 if scale else lo
+      arr = np.asarray([[base + span * [-3.0, 1.0 + 1e-7, 4.0, 1e30][f - 5]]], dtype=np.float32)
+    back = conv.to_parameter_values(arr)
+    ok = ok and len(back) == 1
+    if clip:
+      # clipping on: the decoded value is a member of the search space, whatever the array holds
+      ok = ok and back[0] is not None and isinstance(back[0].value, float) and lo <= back[0].value <= hi
+      ok = ok and pc.contains(back[0].value)
+    if ok and f < 5:
+      ok = back[0] is not None
+    if ok and f < 5:
+      ok = math.isclose(back[0].value, value, rel_tol=2e-6, abs_tol=2e-6 * max(abs(lo), abs(hi)))
+  reach('float32_double')
+  return finish(ok, (b, scale, clip, f))
